@@ -542,6 +542,10 @@ def judgeLoopWrite (nd : LN) (now : Int) (din dout : Desc) : List String := Id.r
         bad := (if c.kind == .BLC && nd.fresh then s!"edge-register:{a.state.code}>{b.state.code}" else s!"edge:{a.state.code}>{b.state.code}") :: bad
     if b.ts < a.ts then bad := "heartbeat-backwards" :: bad
     if a.regTs != b.regTs then bad := "registered-changed" :: bad
+    -- "tokens inherited from the ring are kept as they are": a full Lifecycler whose entry is and stays ACTIVE does not
+    -- change its token list (apart from the explicit hand-over it was asked to perform)
+    if c.kind == .LC && a.state == .ACTIVE && b.state == .ACTIVE && a.tokens != b.tokens && nd.claims.isEmpty then
+      bad := "active-tokens-changed" :: bad
   | _, _ => pure ()
   return bad
 
